@@ -86,6 +86,28 @@ class Xform(ast.NodeTransformer):
             expr = ast.BinOp(expr, ast.Add(), p)
         return ast.copy_location(expr, node)
 
+    # N8: `import struct` / `from io import BytesIO` of a library that has a stub binds the stub at import time, so that default
+    # arguments and module-level values computed from it already see the stub
+    def visit_Import(self, node):
+        out = []
+        for a in node.names:
+            if a.name in _STUB_LIBS:
+                target = a.asname or a.name
+                out.append(ast.Assign([ast.Name(target, ast.Store())],
+                                      ast.Call(ast.Name('__vlib__', ast.Load()), [ast.Constant(a.name), ast.Constant(None)], [])))
+            else:
+                out.append(ast.Import([a]))
+        return [ast.copy_location(n, node) for n in out]
+
+    def visit_ImportFrom(self, node):
+        if node.level == 0 and node.module in _STUB_LIBS and all(a.name != '*' for a in node.names):
+            out = []
+            for a in node.names:
+                out.append(ast.Assign([ast.Name(a.asname or a.name, ast.Store())],
+                                      ast.Call(ast.Name('__vlib__', ast.Load()), [ast.Constant(node.module), ast.Constant(a.name)], [])))
+            return [ast.copy_location(n, node) for n in out]
+        return node
+
     def visit_While(self, node):
         self.generic_visit(node)
         tick = ast.Expr(ast.Call(ast.Attribute(ast.Name('__fuel__', ast.Load()), 'tick', ast.Load()), [], []))
@@ -158,6 +180,20 @@ def transform_source(path, optimize=0):
     return compile(tree, path, 'exec', optimize=optimize, dont_inherit=True), xf.stripped
 
 
+_STUB_LIBS = ('struct', 'binascii', 'io', 'datetime', 're', 'csv')
+
+
+def _vlib(name, attr):
+    """the stub standing in for library `name` (or one attribute of it; attributes the stub does not have come from the real library)"""
+    lib = {'struct': models.StructStub, 'binascii': models.BinasciiStub, 'io': models.IoStub, 'datetime': models.DatetimeStub,
+           're': models.ReStub, 'csv': models.CsvStub}[name]
+    if attr is None:
+        return lib
+    if hasattr(lib, attr):
+        return getattr(lib, attr)
+    return getattr(importlib.import_module(name), attr)
+
+
 # post-exec overrides: names bound by `import x` inside the module are replaced by stubs
 def _post_overrides(name, d, stubs):
     lib = {
@@ -202,6 +238,7 @@ class _Loader:
         d = module.__dict__
         d.update(models.SHADOWS)
         d['__vjoin__'] = sh_join
+        d['__vlib__'] = _vlib
         d.update(self.ctx.extra_shadows)
         exec(code, d)
         _post_overrides(self.name, d, self.ctx.stubs)
